@@ -185,3 +185,15 @@ package swap
 //@   requires div(T * a0, r0) > 0
 //@   ensures back0: div(div(T * a0, r0) * (r0 + a0), T + div(T * a0, r0)) <= a0
 //@   ensures back1: div(div(T * a0, r0) * (r1 + div(a0 * r1, r0)), T + div(T * a0, r0)) <= div(a0 * r1, r0) + 1
+
+//@ # ---------------------------------------------------------------- abstract swap state for transaction-level frames
+//@ # swapAbs is an abstract token for "all pools and orders": every swap mutator changes it, getters do not.
+//@ ghost swapAbs() int
+
+//@ # ASSUMED: read-only views (lazy caches are representation detail)
+//@ func iface RSwap.GetSwapper
+//@   modifies nothing
+//@ func iface RSwap.SwapPoolExist
+//@   modifies nothing
+//@ func iface RSwap.SwapPool
+//@   modifies nothing
